@@ -128,7 +128,7 @@ func TestC02(t *testing.T) {
 
 func TestC03(t *testing.T) {
 	p := &world.Profile{Name: "mintaint", MinGroups: 1, MaxGroups: 2, Auto: 2, MaxInit: 10, SmallGraces: true, Steps: 30, Stale: true,
-		Weights: with(baseWeights(), "asgEdit", 2, "cordon", 3, "taintExt", 3, "targetUtil", 10, "pinAsg", 3, "refreshFails", 2, "belowMinWithCordoned", 3, "oddTaintAtFloor", 3, "goneTaintedBelowMin", 3)}
+		Weights: with(baseWeights(), "asgEdit", 2, "cordon", 3, "taintExt", 3, "targetUtil", 10, "pinAsg", 3, "refreshFails", 2, "belowMinWithCordoned", 3, "oddTaintAtFloor", 3, "goneTaintedBelowMin", 3, "minRaisedWhileRefreshFails", 3)}
 	col := newCollector(t, "C03", "history check; non-trivial = a scan in which the clamp binds (rate > untainted - min), or untainted < min (recovery), or min_nodes is auto-discovered; distinct by (clamp, recovery, auto, tainted-present, cordoned-present, k)")
 	historyCheck(t, &historyOpts{prop: "C03", profile: p, col: col, classify: func(w *world.World, rec *world.ScanRecord) []string {
 		var keys []string
@@ -216,7 +216,7 @@ func TestC05History(t *testing.T) {
 func TestC06(t *testing.T) {
 	p := &world.Profile{Name: "bands", MinGroups: 1, MaxGroups: 2, Fleet: 1, Auto: 1, Default: 1, Starve: 1, MaxAge: 1, MaxInit: 10, SmallGraces: true, Steps: 25,
 		FaultFocus: "cloud",
-		Weights:    with(baseWeights(), "targetUtil", 16, "scan", 12, "taintExt", 2, "cordon", 1, "restart", 1, "schedule", 3, "asgEdit", 2, "fault", 2, "fleetPlan", 1, "resizeNode", 2, "launch", 3, "starveAfterScaleUp", 2, "latency", 2, "gracefulDelete", 2, "unevenStarve", 4, "oldestWriteFails", 3, "goneUntaintedThenIdle", 3)}
+		Weights:    with(baseWeights(), "targetUtil", 16, "scan", 12, "taintExt", 2, "cordon", 1, "restart", 1, "schedule", 3, "asgEdit", 2, "fault", 2, "fleetPlan", 1, "resizeNode", 2, "launch", 3, "starveAfterScaleUp", 4, "latency", 2, "gracefulDelete", 2, "unevenStarve", 4, "oldestWriteFails", 3, "goneUntaintedThenIdle", 3)}
 	col := newCollector(t, "C06", "history check; every unlocked, in-bounds, fault-free scan is judged against the exact-rational band; non-trivial = band with a non-empty expected action or an edge class; distinct by (band set, edge, clamp binds, tainted present, trigger)")
 	historyCheck(t, &historyOpts{prop: "C06", profile: p, col: col, classify: func(w *world.World, rec *world.ScanRecord) []string {
 		var keys []string
@@ -515,7 +515,7 @@ func TestC12(t *testing.T) {
 
 func TestC15History(t *testing.T) {
 	p := &world.Profile{Name: "taints", MinGroups: 1, MaxGroups: 2, Auto: 1, MaxInit: 8, SmallGraces: true, Steps: 30, Stale: true,
-		Weights: with(baseWeights(), "targetUtil", 14, "foreignTaint", 6, "taintExt", 2, "advance", 4, "annotate", 2, "staleWindow", 3, "fault", 1, "latency", 4, "raceOnWrite", 3)}
+		Weights: with(baseWeights(), "targetUtil", 14, "foreignTaint", 6, "taintExt", 5, "advance", 4, "annotate", 2, "staleWindow", 3, "fault", 1, "latency", 4, "raceOnWrite", 3)}
 	col := newCollector(t, "C15", "history half: every accepted node update is compared with the stored object it replaced; non-trivial = an update on a node with >= 2 foreign taints, or a re-taint of a node tainted and untainted earlier, or a scale-down over already tainted nodes (stale view); distinct by (add/remove, foreign taints, stale no-op)")
 	tainted := map[string]int{}
 	historyCheck(t, &historyOpts{prop: "C15", profile: p, col: col, classify: func(w *world.World, rec *world.ScanRecord) []string {
@@ -642,8 +642,8 @@ func sortStrings(s []string) {
 // ---------------------------------------------------------------- C13 (end-to-end half)
 
 func TestC13History(t *testing.T) {
-	p := &world.Profile{Name: "gauges", MinGroups: 1, MaxGroups: 2, Auto: 1, Default: 1, MaxInit: 8, SmallGraces: true, Steps: 25, Stale: true,
-		Weights: with(baseWeights(), "addPods", 8, "targetUtil", 6, "cordon", 5, "taintExt", 4, "schedule", 2, "replacePod", 6, "resizePod", 4, "gracefulDelete", 4, "clonePod", 3, "replaceBetweenScans", 2)}
+	p := &world.Profile{Name: "gauges", MinGroups: 1, MaxGroups: 2, Auto: 1, Default: 1, Starve: 1, MaxInit: 8, SmallGraces: true, Steps: 25, Stale: true,
+		Weights: with(baseWeights(), "addPods", 8, "targetUtil", 6, "cordon", 5, "taintExt", 4, "schedule", 2, "replacePod", 6, "resizePod", 4, "gracefulDelete", 4, "clonePod", 3, "replaceBetweenScans", 2, "fracAllocStarve", 3)}
 	col := newCollector(t, "C13", "end-to-end: after every scan the request and capacity gauges are compared with exact totals computed from the view (pods by the reference attribution, allocatable over untainted uncordoned nodes) with shuffled list orders; non-trivial = a scan with init containers or overhead among the pods, or cordoned/tainted nodes next to untainted ones, in a shuffled order; distinct by (pods, classes present, shuffled)")
 	historyCheck(t, &historyOpts{prop: "C13", profile: p, col: col, extra: largerDrives, classify: func(w *world.World, rec *world.ScanRecord) []string {
 		var keys []string
@@ -696,7 +696,7 @@ func TestC14History(t *testing.T) {
 	p := &world.Profile{Name: "attribution", MinGroups: 1, MaxGroups: 3, Auto: 1, Default: 1, MaxInit: 5, SmallGraces: true, Steps: 25,
 		Weights: map[string]int{"scan": 12, "addPods": 10, "replacePod": 6, "retargetPod": 6, "finishPods": 3, "targetUtil": 3, "schedule": 2, "launch": 2, "cordon": 1, "taintExt": 1, "advance": 1, "restart": 1, "oddPod": 3, "noProvNode": 2, "gracefulDelete": 4, "resizePod": 2, "clonePod": 4, "relabel": 4}}
 	col := newCollector(t, "C14", "end-to-end: along histories in which pods come, go and are re-created under the same name with a different selector / affinity / owner / static annotation, the number of pods and nodes each scan saw (count gauges set from the real filtered listers, which live across scans) equals the documented attribution; non-trivial = a scan after a same-name replacement that changed the pod's group, or with >= 2 groups sharing a label key; distinct by situation digest")
-	historyCheck(t, &historyOpts{prop: "C14", profile: p, col: col, classify: func(w *world.World, rec *world.ScanRecord) []string {
+	historyCheck(t, &historyOpts{prop: "C14", profile: p, col: col, extra: countedPodsAreTheAttributedOnes, classify: func(w *world.World, rec *world.ScanRecord) []string {
 		replaced := 0
 		for _, a := range w.Log {
 			if a.Op == "replacePod" {
@@ -788,6 +788,27 @@ func TestC17History(t *testing.T) {
 		}
 		return keys
 	}})
+}
+
+// countedPodsAreTheAttributedOnes: the pods that count toward a group are exactly the attributed ones, each once: with
+// the right number of pods but a request total that differs from the exact total over the attributed
+// pods, some pod was counted that does not belong (or twice) while another was left out.
+func countedPodsAreTheAttributedOnes(w *world.World, rec *world.ScanRecord) []world.Violation {
+	var out []world.Violation
+	vs := w.M13(rec)
+	for _, gr := range rec.Groups {
+		// only where every object is inside the input domain (absurd magnitudes overflow the totals by design, see 3.1)
+		switch w.Expectation(rec, gr).Kind {
+		case "odd", "ambiguous", "unprocessed", "aborted", "dry":
+			continue
+		}
+		for _, v := range vs {
+			if v.Sig == "C13:request-gauge-mismatch" && strings.HasPrefix(v.Msg, fmt.Sprintf("group %d:", gr.G)) {
+				out = append(out, world.Violation{Prop: "C14", Sig: "C14:request-total-not-over-the-attributed-pods", Msg: v.Msg})
+			}
+		}
+	}
+	return out
 }
 
 // quietScan: no failure injected or armed, no restart, and no node carries the escalator key twice
